@@ -56,6 +56,12 @@ SpecDec(pos, b) ==
       [] pos = "array" -> DecArray(b)
 
 SignedTags == { Tg.b, Tg.s, Tg.I, Tg.l }
+\* integers and containers of integers only (the C11 statement about TypeError is about integers)
+RECURSIVE IntOnly(_)
+IntOnly(v) == CASE v.t = "int" -> TRUE
+                [] v.t = "table" -> \A i \in 1..Len(v.e) : IntOnly(v.e[i].v)
+                [] v.t = "array" -> \A i \in 1..Len(v.e) : IntOnly(v.e[i])
+                [] OTHER -> FALSE
 
 \* C10 on typed arguments: bool and int compare numerically (True == 1 is not corruption), a bit
 \* argument carries the truth value of what was passed, a falsy non-table where a table is expected
@@ -84,20 +90,23 @@ EncodeValue(e) ==
         okc  == e.out.r = "ok"
         wire == IF okc THEN SpecDec(e.pos, e.out.b) ELSE Bad
         want == Norm(v)
+        dom03 == Encodable03(v, 32)
     IN
     \* C11: ladder, refusal type, legacy tags
-    /\ Chk(e, "C11", "accepted_iff_int64", spec.ok = okc)
-    /\ Chk(e, "C11", "refused_with_TypeError", ~spec.ok => (~okc /\ e.out.type = "TypeError"))
+    /\ Chk(e, "C11", "accepted_iff_int64", IntOnly(v) => (spec.ok = okc))
+    /\ Chk(e, "C11", "refused_with_TypeError", (IntOnly(v) /\ ~spec.ok /\ spec.err = "TypeError") => (~okc /\ e.out.type = "TypeError"))
+    /\ Chk(e, "C11", "refusal_is_an_outcome_like_any_other", ~spec.ok => ~okc)
     /\ Chk(e, "C11", "smallest_fit_bytes", (spec.ok /\ okc) => e.out.b = spec.b)
     /\ Chk(e, "C11", "legacy_only_signed_tags",
            (legacy /\ okc /\ wire.ok) => IntTags(wire.v) \subseteq SignedTags)
     \* C03: accepted, decodes (by the reference decoder and by the code) to the normalised input
-    /\ Chk(e, "C03", "accepted", Encodable03(v, 32) => okc)
+    \* (only for values of the statement's domain; what happens outside it is C10's business)
+    /\ Chk(e, "C03", "accepted", dom03 => okc)
     /\ Chk(e, "C03", "wire_decodes_to_input",
-           okc => (wire.ok /\ wire.n = Len(e.out.b) /\ SameValue(wire.v, want)))
-    /\ Chk(e, "C03", "code_decode_ok", okc => e.dec.r = "ok")
-    /\ Chk(e, "C03", "code_decode_consumed", (okc /\ e.dec.r = "ok") => e.dec.n = Len(e.out.b))
-    /\ Chk(e, "C03", "code_decode_value", (okc /\ e.dec.r = "ok") => SameValue(e.dec.v, want))
+           (dom03 /\ okc) => (wire.ok /\ wire.n = Len(e.out.b) /\ SameValue(wire.v, want)))
+    /\ Chk(e, "C03", "code_decode_ok", (dom03 /\ okc) => e.dec.r = "ok")
+    /\ Chk(e, "C03", "code_decode_consumed", (dom03 /\ okc /\ e.dec.r = "ok") => e.dec.n = Len(e.out.b))
+    /\ Chk(e, "C03", "code_decode_value", (dom03 /\ okc /\ e.dec.r = "ok") => SameValue(e.dec.v, want))
     \* C04: byte-identical to the reference encoder
     /\ Chk(e, "C04", "accepted", spec.ok => okc)
     /\ Chk(e, "C04", "bytes_equal_reference", (spec.ok /\ okc) => e.out.b = spec.b)
@@ -433,6 +442,8 @@ Observe(e) ==
            (ok /\ Len(e.iter_vals) = n) => \A i \in 1..n : e.iter_vals[i] = e.attrs[names[i]])
     /\ Chk(e, "C19", "dict_equals_attributes",
            (ok /\ Len(e.dict_vals) = n) => (e.dict_names = names /\ \A i \in 1..n : e.dict_vals[i] = e.attrs[names[i]]))
+    /\ Chk(e, "C19", "overlapping_iterations_independent",
+           ok => (e.zip_first = names /\ e.zip_second = names /\ e.nested = n * n /\ e.partial = names))
     /\ Chk(e, "C19", "length", ok => e.len = n)
     /\ Chk(e, "C19", "membership", ok => ((\A i \in 1..Len(e.contains) : e.contains[i]) /\ Len(e.contains) = n
                                           /\ \A i \in 1..Len(e.contains_probe) : ~e.contains_probe[i]))
@@ -543,6 +554,13 @@ SameResult(e) ==
            /\ (e.out1.r = "exc" => e.out1.type = e.out2.type))
     /\ UNCHANGED st
 
+UndefinedCodes(e) ==
+    LET spec == { ReplyCodes[i].value : i \in 1..18 } IN
+    /\ Chk(e, "C17", "exactly_the_specified_codes_by_lookup",
+           /\ SeqSet(e.subscript_ok) = spec /\ SeqSet(e.contains) = spec /\ SeqSet(e.get_ok) = spec
+           /\ e.other_exc = <<>>)
+    /\ UNCHANGED st
+
 ToggleArg(a) == IF a = "false" THEN FALSE ELSE TRUE      \* "true", "noarg" -> TRUE
 
 \* ---- the object world (Api.tla): identity, aliasing, purity (C16, C12) -----------
@@ -618,6 +636,7 @@ Step == /\ l <= Len(Events)
              [] e.a = "PropertiesEntry" -> PropertiesEntry(e)
              [] e.a = "ClassEntry"  -> ClassEntry(e)
              [] e.a = "ReplyKeys"   -> ReplyKeys(e)
+             [] e.a = "UndefinedCodes" -> UndefinedCodes(e)
              [] e.a = "ReplyCode"   -> ReplyCode(e)
              [] e.a = "Constants"   -> ConstantsEv(e)
              [] e.a = "UnmarshalingExc" -> UnmarshalingExc(e)
